@@ -26,7 +26,13 @@ up to the first frame that has not. -/
 theorem C07_messages_are_valid_prefix (cd : Codec α) (cfg : DecCfg) (n : Nat) (evs : List BodyEv) :
     msgsOf (Dec.run cd cfg n Dec.init evs) <+: (batch (recvOf cd cfg) (dataOf evs)).1 := by
   have := run_msgs_prefix cd cfg n Dec.init evs (by simp [PhaseOk, Dec.init])
-  simpa [specFrom, Dec.init] using this
+  cases hs : cfg.skipsBody with
+  | false => simpa [specFrom, Dec.init, accepted_keep hs] using this
+  | true =>
+    -- a response with a non-200 HTTP status: its body is not read, no message is yielded at all
+    have hnil : msgsOf (Dec.run cd cfg n Dec.init evs) = [] := by
+      simpa [specFrom, Dec.init, accepted_skip hs, batch_nil] using this
+    rw [hnil]; exact List.nil_prefix
 
 /-- **The first error is final.**  After the stream has yielded an error, every later poll
 yields `None`. -/
@@ -40,9 +46,10 @@ polls the stream reports the end of the stream or an error. -/
 theorem C07_drain_terminates (cd : Codec α) (cfg : DecCfg) (evs : List BodyEv) (n : Nat)
     (hn : evs.length + (batch (recvOf cd cfg) (dataOf evs)).1.length < n) :
     ∃ o ∈ Dec.run cd cfg n Dec.init evs, o.isTerminal = true := by
-  have := run_reaches_end cd cfg n Dec.init evs (by simp [PhaseOk, Dec.init])
-    (by simpa [specFrom, Dec.init] using hn)
-  exact this
+  refine run_reaches_end cd cfg n Dec.init evs (by simp [PhaseOk, Dec.init]) ?_
+  cases hs : cfg.skipsBody with
+  | false => simpa [specFrom, Dec.init, accepted_keep hs] using hn
+  | true => simp [specFrom, Dec.init, accepted_skip hs, batch_nil]; omega
 
 /-- **Which inputs are refused, and how** (the reference decoder's verdicts are the stream's
 errors): if the delivered bytes contain, after `k` valid frames, a frame with an illegal flag, a
